@@ -228,6 +228,9 @@ class rewrite_goal_with_prev(Tactic):
         eq_th = cv.eval(C)
         new_goal = eq_th.prop.rhs
 
+        # A match alone is not enough (e.g. rewriting with 0 = 0): the goal must change
+        assert new_goal != C, "rewrite_goal_with_prev: rewriting has no effect"
+
         prevs = list(prevs)
         if not new_goal.is_reflexive():
             prevs.append(ProofTerm.sorry(Thm(new_goal, goal.hyps)))
